@@ -251,9 +251,14 @@ def check(cls, case, rec):
 
     seen = {}
 
+    # every other recording solver hands its pairs back in descending order (the documented solver= argument takes any callable; the
+    # job keeps the pairs as they come: value n belongs to vector n)
+    descending = (case["seed"] // 2) % 2 == 1 and cls != "mixed-hexahedron"
+
     def recording_solver(A, M, sigma, **kw):
         seen.update(A=A.copy(), M=M.copy(), sigma=sigma, kw=dict(kw))
-        return eigsh(A=A, M=M, sigma=sigma, **kw)
+        w_, V_ = eigsh(A=A, M=M, sigma=sigma, **kw)
+        return (w_[::-1].copy(), V_[:, ::-1].copy()) if descending else (w_, V_)
 
     xkw = {}
     if xg is not None:
@@ -293,7 +298,11 @@ def check(cls, case, rec):
         return
     if not rec.require("dof1", np.array_equal(np.asarray(job.dof1), dof1)):
         return
-    rec.require("eigenvalues-real-sorted", bool(np.isrealobj(lam) and np.all(np.diff(lam) >= -1e-9 * abs(lam).max())))
+    solver_descending = descending and case["seed"] % 2 == 1
+    if solver_descending:
+        rec.label("user-solver-returns-descending-pairs")
+    sgn_ = -1.0 if solver_descending else 1.0
+    rec.require("eigenvalues-real-in-the-order-of-the-solver", bool(np.isrealobj(lam) and np.all(sgn_ * np.diff(lam) >= -1e-9 * abs(lam).max())))
     K11 = K[dof1][:, dof1]
     M11 = M[dof1][:, dof1]
     worst = 0.0
@@ -364,6 +373,12 @@ def check(cls, case, rec):
                     Kv = K11b @ V2[:, i]
                     w2 = max(w2, float(np.linalg.norm(Kv - lam2[i] * (M11b @ V2[:, i])) / max(np.linalg.norm(Kv), 1e-300)))
                 rec.close("re-evaluation: K v = lambda M v", w2, 1e-7, {"k": kb})
+                # a mode extracted after the re-evaluation vanishes on the unknowns prescribed NOW (some were free in the first run)
+                f2, fr2 = job.extract(n=kb - 1, inplace=False)
+                v2 = np.concatenate([f_.values.ravel() for f_ in f2.fields])
+                dof0b = np.setdiff1d(np.arange(v2.size), dof1b)
+                rec.close("re-evaluation: mode-vanishes-on-prescribed-unknowns", float(np.abs(v2[dof0b]).max()) if len(dof0b) else 0.0, 0.0)
+                rec.close("re-evaluation: mode=eigenvector-on-free-unknowns", float(np.abs(v2[dof1b] - V2[:, kb - 1]).max()), 0.0)
 
 
 def free_check(cls, case, rec):
